@@ -81,9 +81,9 @@ pub enum Schedule {
         /// percent: relative eagerness of the sweeper
         #[serde(default)]
         sweeper_pct: u32,
-        /// run one operation to completion (incl. its acknowledgement) before starting the next
+        /// percent: probability of continuing with the actor that ran last (coarser interleavings)
         #[serde(default)]
-        sequential: bool,
+        sticky_pct: u32,
     },
     /// explicit list of (actor, site) steps; "env" steps carry the advance in `d`
     #[serde(rename = "list")]
@@ -191,5 +191,6 @@ pub struct StepRec {
     pub pc: BTreeMap<String, String>,
     pub s: StateRec,
     /// reset only
+    #[serde(skip_serializing_if = "Option::is_none")]
     pub cfg: Option<Cfg>,
 }
